@@ -2,7 +2,7 @@
 dominance of success returns, error-result checks, bounded copies (DESIGN.md §4 C18)."""
 from .. import flow, cfg as cfgmod
 from ..facts import AnalysisBroken
-from ..flow import lvalue_key, is_assign, pretty_key, _strip_casts
+from ..flow import null_test, lvalue_key, is_assign, pretty_key, _strip_casts
 import re
 from ..controls import load_controls
 
@@ -281,6 +281,29 @@ def run_rules(ctx, db, fns, summaries, nullable):
     return n_exit, n_loop, n_null
 
 
+def _logger_nonnull_at(f, call):
+    """must-analysis over the CFG: on every path to `call` the last test of error_logger took the non-null edge
+    (covers `if (error_logger) log`, `if (!error_logger) return; log`, `error_logger && log`, `cond ? ... : ...`)"""
+    cache = getattr(f, '_logger_nn', None)
+    g = f.cfg
+    if cache is None:
+        def refine(blk, k, succ, st):
+            if len(blk.s) != 2 or blk.tc is None:
+                return st
+            nt = null_test(g.branch_cond(blk))
+            if nt and nt[0].endswith('error_logger'):
+                nonnull_edge = (nt[1] and k == 1) or ((not nt[1]) and k == 0)
+                return frozenset({'nn'}) if nonnull_edge else frozenset()
+            return st
+        ins, _ = g.forward(frozenset(), lambda n_, st: st, refine, lambda a, b: a & b)
+        cache = f._logger_nn = ins
+    w = g.where_node(call)
+    if w is None:
+        return False
+    b = w[0] if isinstance(w, tuple) else w
+    return 'nn' in cache.get(b, frozenset())
+
+
 STDIO_LOG = {'fprintf', 'fputs', 'fputc', 'putc', 'fflush', 'fwrite', 'vfprintf'}
 
 
@@ -300,18 +323,7 @@ def check_logger_guards(ctx, dbx, label, files=None, only=None):
             if not any(_strip_casts(a).k == 'DeclRefExpr' and _strip_casts(a).n == 'error_logger' for a in c.args):
                 continue
             n += 1
-            guarded = False
-            cur = c
-            for a in c.ancestors():
-                if a.k == 'IfStmt' and (a.child('then') is cur or any(x is c for x in (a.child('then').walk() if a.child('then') is not None else []))):
-                    cond = a.child('cond')
-                    for cj in flow_conjuncts(cond):
-                        cj = _strip_casts(cj)
-                        if cj.k == 'DeclRefExpr' and cj.n == 'error_logger':
-                            guarded = True
-                        if cj.k == 'BinaryOperator' and cj.op == '!=' and 'error_logger' in cj.text():
-                            guarded = True
-                cur = a
+            guarded = _logger_nonnull_at(f, c)
             ctx.check(guarded, 'R-NULL.logger', '%s/%s/%s@%s' % (label, f.qn.replace('gdstk::', ''), c.callee, c.loc()), c.loc(), 'log call under `if (error_logger)`',
                       '%s(error_logger, ...) is reached without testing error_logger: with logging disabled (set_error_logger(NULL)) this path dereferences a null FILE* (%s configuration)' % (c.callee, label))
     return n
